@@ -1,7 +1,7 @@
 # Lifecycle lemmas over the linked library IR: H6 allocation failure (C15), H7 page protections (C16), H3 binding (C03), H5 footprints (C14)
 import z3, time, re, os
 from lemmas.common import *
-from engine.irsym import Module, Interp, Ptr, is_c, bv, resolve, NamedT, explore, OOB, Thrown, Unbound, EH_SUB
+from engine.irsym import Module, Interp, Ptr, is_c, bv, resolve, NamedT, explore, OOB, Thrown, Unbound, EH_SUB, Unsupported
 from engine import build, cxxlib
 from spec import params as P
 
@@ -393,6 +393,74 @@ LEMMAS['H3'] = dict(jobs=jobs_H3, run=run_H3, units=['lib'], asm=True,
     doc='binding bookkeeping, one inductive step per API call from an arbitrary prior binding (same cache, or a released cache whose addresses may have been handed out again): afterwards the VM uses exactly the given cache object, its memory, its current key, and (JIT) code generated from its programs; init_cache skips work only for a byte-identical key on an initialised cache',
     bound='keys of length <= 3 (all length pairs in thorough, 6 pairs quick), symbolic key bytes; interpreted and compiled light VMs; one call', symbolic='key bytes, prior binding (object identity, address reuse), initialised flag',
     stubs=['std::string := SSO model', 'Argon2/Blake2 generator/JIT code generation := recorders', 'cache->initialize := recorder'], outside='sequences violating the documented contract (hash on a VM bound to a released cache without re-binding)')
+
+# ---------------------------------------------------------------------------------------------- H9: the compiled dataset initialiser belongs to the current key
+def run_H9(ctx, case):
+    """JIT cache: alloc, init(key A), [init_dataset], init(key B), init_dataset -- whenever generated code is entered, SuperscalarHash and dataset-init code
+    have been generated from this cache's program array after the programs were last rewritten"""
+    q = Q(30); mod = Module(ctx['ll']['lib']); F = flagvals(); npaths = [0]
+    tc = resolve(NamedT('struct.randomx_cache', mod)); co = tc.layout()[0]
+    def one(fk):
+        it = Interp(mod); it.fork = fk; bind_templates(it, ctx)
+        H0 = Heap(it, fail=False); cxxlib.install(it, H0); run_ctors(it, mod)
+        H = Heap(it, fail=False); cxxlib.install(it, H); events = []
+        def gen(name):
+            def h(s, a): events.append((name, a)); return None
+            return h
+        for f in mod.funcs:
+            for g in ('generateSuperscalarHashE', 'generateDatasetInitCodeE'):
+                if 'JitCompilerX86' in f and g in f: it.hooks[f] = gen(g[:-1])
+        it.hooks['<indirect>'] = lambda s, fp, a: events.append(('execute', [fp] + list(a))) and None
+        for nm in ('randomx_blake2b', 'randomx_argon2_validate_inputs', 'randomx_argon2_initialize', 'randomx_argon2_fill_memory_blocks', '_ZN7randomx15Blake2GeneratorC1EPKvmi'):
+            it.hooks[nm] = lambda s, a: 0
+        def gensup(s, a):
+            tp = resolve(NamedT('class.randomx::SuperscalarProgram', mod)); po = tp.layout()[0]
+            s.mem.store(Ptr(a[0].obj, a[0].off + po[1]), 1, 4); s.mem.store(Ptr(a[0].obj, a[0].off), 0, 8); events.append(('program', a)); return None
+        it.hooks['_ZN7randomx19generateSuperscalarERNS_18SuperscalarProgramERNS_15Blake2GeneratorE'] = gensup
+        def once(s, a):      # pthread_once(flag, __once_proxy) as libstdc++'s std::call_once uses it: the callable runs iff the flag has not fired; the flag lives in a long-lived object
+            v = s.mem.load(a[0], 4)
+            fired = (v != 0) if is_c(v) else s.decide(z3.If(bv(v, 32) != 0, z3.BitVecVal(1, 1), z3.BitVecVal(0, 1)))
+            if fired: return 0
+            s.mem.store(a[0], 2, 4)
+            fp = s.mem.load(s.glob('_ZSt11__once_call'), 8)
+            if not (isinstance(fp, Ptr) and str(fp.obj).startswith('@fn:')): raise Unsupported('pthread_once: callable of std::call_once not found')
+            s.call(fp.obj[4:], []); return 0
+        it.hooks['pthread_once'] = once
+        c = it.call('randomx_alloc_cache', [F['JIT'] | case.get('extra', 0)])
+        if not isinstance(c, Ptr) or c.obj is None: raise Exception('randomx_alloc_cache returned NULL without faults')
+        key = it.mem.alloc(8, 'key')
+        for k in range(8): it.mem.store(Ptr('key', k), z3.BitVec('key%d' % k, 8), 1)
+        ds = it.mem.alloc(16, 'the_dataset'); dm = it.mem.mkarr('dataset_memory', P.DATASET_BASE + P.DATASET_EXTRA); it.mem.store(Ptr('the_dataset', 0), dm, 8)
+        it.call('randomx_init_cache', [c, key, 4])
+        if case['first_dataset']: it.call('randomx_init_dataset', [ds, c, 0, 8])
+        it.call('randomx_init_cache', [c, key, 5])        # a different key (other length): must re-initialise
+        it.call('randomx_init_dataset', [ds, c, 8, 3])
+        npaths[0] += 1; tag = 'JIT cache, key A%s, key B, init_dataset' % (', init_dataset' if case['first_dataset'] else '')
+        def chk(c_, msg):
+            q.n += 1; q.unsat += bool(c_); q.sat += (not c_)
+            if not c_: q.failed.append(('%s: %s' % (tag, msg), dict(events=[e[0] for e in events])))
+        names = [e[0] for e in events]
+        chk(names.count('program') == 16, 'both initialisations regenerate the 8 programs (%d generateSuperscalar calls)' % names.count('program'))
+        ex = [i for i, n_ in enumerate(names) if n_ == 'execute']
+        chk(len(ex) == (2 if case['first_dataset'] else 1), 'each init_dataset call enters generated code once (vacuity witness): %d' % len(ex))
+        for i in ex:
+            lastp = max([j for j in range(i) if names[j] == 'program'] or [-1])
+            gh = [j for j in range(i) if names[j] == 'generateSuperscalarHash']; gd = [j for j in range(i) if names[j] == 'generateDatasetInitCode']
+            chk(bool(gh) and gh[-1] > lastp, 'generated code entered although SuperscalarHash code was last generated before the programs were rewritten (stale code of the previous key)')
+            chk(bool(gd) and gd[-1] > lastp, 'generated code entered although the dataset-init code was last generated before the programs were rewritten')
+            if gh:
+                a = events[gh[-1]][1]
+                chk(isinstance(a[1], Ptr) and a[1].obj == c.obj and a[1].off == co[5], 'SuperscalarHash code generated from this cache\'s program array')
+            fp = events[i][1][0]; a = events[i][1][1:]
+            chk(isinstance(a[0], Ptr) and a[0].obj == c.obj, 'generated dataset-init code receives this cache')
+    res, nq = explore(one, limit=64); q.n += nq
+    return result('H9', str(case), q, paths=npaths[0])
+
+LEMMAS['H9'] = dict(jobs=lambda ctx: [dict(first_dataset=f) for f in (1, 0)], run=run_H9, units=['lib'], asm=True,
+    functions=['randomx_alloc_cache', 'randomx_init_cache', 'initCacheCompile', 'initCache (program loop)', 'randomx_init_dataset'],
+    doc='compiled dataset initialisation after re-keying: on every path of alloc_cache(JIT); init_cache(A); [init_dataset]; init_cache(B); init_dataset the generated code is entered only after SuperscalarHash code and dataset-init code were generated from this cache\'s program array later than the last rewrite of the programs',
+    bound='one JIT cache, two keys of different length, item ranges (0,8) and (8,3)', symbolic='key bytes',
+    stubs=['Argon2 fill, Blake2 generator, generateSuperscalar := recorders (any program)', 'JIT code generation := recorders', 'pthread_once := runs the std::call_once callable iff the flag word is zero, then sets it'], outside='what the generated code computes (J5)')
 
 # ---------------------------------------------------------------------------------------------- H8: v1 <-> v2 switch
 def run_H8(ctx, case):
